@@ -25,6 +25,7 @@ Conv(j) ==
     [] j.t = "sub" -> [t |-> "sub", lo |-> j.lo, cnt |-> j.cnt, x |-> Conv(j.x)]
     [] j.t = "unify" -> [t |-> "unify", x |-> Conv(j.x), y |-> Conv(j.y)]
     [] j.t = "debug" -> [t |-> "debug", x |-> Conv(j.x)]
+    [] j.t = "fail" -> [t |-> "fail", at |-> j.at, x |-> Conv(j.x)]
 
 \* a recorded page request r against the specification's q
 ReqMatch(r, q) ==
